@@ -117,7 +117,10 @@ func (t *SymbolTable) Var(v Variable) string {
 }
 
 func (t *SymbolTable) Clone() *SymbolTable {
-	newTable := *t
+	// copy the elements: sharing the backing array would let two clones
+	// overwrite each other's appended symbols
+	newTable := make(SymbolTable, len(*t))
+	copy(newTable, *t)
 	return &newTable
 }
 
